@@ -1,7 +1,7 @@
 (* GENERATED on every run by harness/translate/pysrc.py from the Python sources of the tree
    under test — do not edit.  Each definition is the translation of one function's source text;
    Proofs/GenEq*.v prove it equal to the hand-written model for all inputs. *)
-From CG Require Import Model.Loop Model.Recur Model.Cache.
+From CG Require Import Model.Metrics Model.Slice Model.Loop Model.Recur Model.Cache.
 
 
 (* calgebra/interval.py: Interval.finite_start *)
@@ -571,3 +571,513 @@ Definition g_diff_sweep (fuel : nat) (source_stream : list ivl) (sub_streams : l
       let out := @nil ivl in
       out)
     (subtractor_iter, current_subtractor) source_stream.
+
+(* calgebra/core.py: _SourceState.advance *)
+Definition g_ss_advance (self : sstate) : sstate * bool :=
+  if (exh self) then
+    (self, false)
+  else
+    match (rest self) with
+    | v_ :: it_ =>
+      let self := (mkS (cur self) it_ (exh self) (lpc self)) in
+      let self := (mkS (Some v_) (rest self) (exh self) (lpc self)) in
+      let self := (mkS (cur self) (rest self) (exh self) None) in
+      (self, true)
+    | [] =>
+      let self := (mkS (cur self) (rest self) true (lpc self)) in
+      (self, true)
+    end.
+
+(* calgebra/core.py: _SourceState.__init__ *)
+Definition g_ss_init (iterator : list ivl) : sstate :=
+  let self := (mkS None iterator false None) in
+  let '(self, m1_) := (g_ss_advance self) in
+  self.
+
+(* calgebra/core.py: _SourceState.advance_if_ends_at *)
+Definition g_ss_advance_if_ends_at (self : sstate) (cutoff : Z) : sstate * bool :=
+  if ((negb (is_none (cur self))) && ((fend (oivld (cur self))) =? cutoff) && (negb (exh self))) then
+    let '(self, m1_) := (g_ss_advance self) in
+    (self, m1_)
+  else
+    (self, false).
+
+(* calgebra/core.py: _SourceState.advance_if_stalled *)
+Definition g_ss_advance_if_stalled (self : sstate) (cutoff : Z) : sstate * bool :=
+  if ((negb (is_none (cur self))) && (negb (exh self)) && (oZ_eqb (lpc self) (Some cutoff)) && (negb ((fend (oivld (cur self))) =? cutoff))) then
+    let '(self, m1_) := (g_ss_advance self) in
+    (self, m1_)
+  else
+    (self, false).
+
+(* calgebra/core.py: _SourceState.was_processed_at *)
+Definition g_ss_was_processed_at (self : sstate) (cutoff : Z) : bool :=
+  (oZ_eqb (lpc self) (Some cutoff)).
+
+(* calgebra/core.py: Intersection._sweep *)
+Definition g_inter_sweep (fuel : nat) (streams : list (list ivl)) (emit_indices : list Z) : res (list ivl) :=
+  let out := @nil ivl in
+  let states := (map (fun stream => (g_ss_init stream)) streams) in
+  if (forallb (fun s => ((exh s) && (is_none (cur s)))) states) then
+    (RDone out)
+  else
+    if ((Z.of_nat (length states)) =? 1) then
+      let state := (py_index (mkS None [] true None) states 0) in
+      run_while fuel
+        (fun '(state, states) => (negb (is_none (cur state))))
+        (fun '(state, states) =>
+          let out := @nil ivl in
+          let out := out ++ [(oivld (cur state))] in
+          let '(state, m1_) := (g_ss_advance state) in
+          let states := (py_set_index states 0 state) in
+          if (exh state) then
+            (out, (state, states), Brk)
+          else
+            (out, (state, states), Cont))
+        (fun '(state, states) =>
+          let out := @nil ivl in
+          out)
+        (state, states)
+    else
+      run_while fuel
+        (fun states => true)
+        (fun states =>
+          let out := @nil ivl in
+          let active := (map (fun s => (oivld (cur s))) (filter (fun s => (negb (is_none (cur s)))) states)) in
+          if ((Z.of_nat (length active)) <? (Z.of_nat (length states))) then
+            (out, states, Ret)
+          else
+            let overlap_start := (py_max (map (fun ivl_ => (fstart ivl_)) active)) in
+            let overlap_end := (py_min (map (fun ivl_ => (fend ivl_)) active)) in
+            if (overlap_start <? overlap_end) then
+              let '(out1_, states) :=
+                sub_for
+                  (fun states idx =>
+                    let out := @nil ivl in
+                    let state := (py_index (mkS None [] true None) states idx) in
+                    if ((is_none (cur state)) || (g_ss_was_processed_at state overlap_end)) then
+                      (out, states, true)
+                    else
+                      let start_val := (if (negb (overlap_start =? NEG_INF)) then (Some overlap_start) else None) in
+                      let end_val := (if (negb (overlap_end =? POS_INF)) then (Some overlap_end) else None) in
+                      let out := out ++ [(set_span (oivld (cur state)) start_val end_val)] in
+                      let state := (mkS (cur state) (rest state) (exh state) (Some overlap_end)) in
+                      let states := (py_set_index states idx state) in
+                      (out, states, true))
+                  states emit_indices in
+              let out := out ++ out1_ in
+              let cutoff := overlap_end in
+              let '(states, advanced) := (any_mut (fun v_ => (g_ss_advance_if_ends_at v_ cutoff)) states) in
+              let '(advanced, states) :=
+                if (negb advanced) then
+                  let '(states, advanced) := (any_mut_at (mkS None [] true None) (fun v_ => (g_ss_advance_if_stalled v_ cutoff)) states emit_indices) in
+                  (advanced, states)
+                else
+                  (advanced, states) in
+              if (negb advanced) then
+                (out, states, Ret)
+              else
+                (out, states, Cont)
+            else
+              let cutoff := overlap_end in
+              let '(states, advanced) := (any_mut (fun v_ => (g_ss_advance_if_ends_at v_ cutoff)) states) in
+              let '(advanced, states) :=
+                if (negb advanced) then
+                  let '(states, advanced) := (any_mut_at (mkS None [] true None) (fun v_ => (g_ss_advance_if_stalled v_ cutoff)) states emit_indices) in
+                  (advanced, states)
+                else
+                  (advanced, states) in
+              if (negb advanced) then
+                (out, states, Ret)
+              else
+                (out, states, Cont))
+        (fun states =>
+          let out := @nil ivl in
+          out)
+        states.
+
+(* calgebra/core.py: Intersection.fetch *)
+Definition g_inter_fetch {TL : Type} (fuel : nat) (self_sources : list TL) (tl_is_mask : TL -> bool) (tl_fetch : TL -> option Z -> option Z -> bool -> list ivl) (start : option Z) (end_ : option Z) (reverse : bool) : res (list ivl) :=
+  if (negb (nonempty self_sources)) then
+    (RDone (@nil ivl))
+  else
+    let mask_sources := (map (fun s => (tl_is_mask s)) self_sources) in
+    let emit_indices :=
+      if (forallb (fun b_ => b_) mask_sources) then
+        let emit_indices := (fs_of_list [0]) in
+        emit_indices
+      else
+        if (existsb (fun b_ => b_) mask_sources) then
+          let emit_indices := (fs_of_list (map (fun '(i, is_mask) => i) (filter (fun '(i, is_mask) => (negb is_mask)) (py_enumerate mask_sources)))) in
+          emit_indices
+        else
+          let emit_indices := (fs_of_list (zrange (Z.of_nat (length self_sources)))) in
+          emit_indices in
+    if reverse then
+      let streams := (map (fun s => (g_negate_stream (tl_fetch s start end_ true))) self_sources) in
+      res_bind (g_inter_sweep fuel streams emit_indices) (fun r1_ =>
+      (RDone (g_negate_stream r1_)))
+    else
+      let streams := (map (fun s => (tl_fetch s start end_ false)) self_sources) in
+      res_bind (g_inter_sweep fuel streams emit_indices) (fun r2_ =>
+      (RDone r2_)).
+
+(* calgebra/core.py: Timeline._coerce_bound *)
+Definition g_coerce_bound (bound_ : Slice.bound) : res (option Z) :=
+  match bound_ with
+  | Slice.BNone =>
+    (RDone None)
+  | Slice.BInt bound__z =>
+    (RDone (Some bound__z))
+  | Slice.BAware bound__t bound__zone =>
+    (RDone (Some bound__t))
+  | Slice.BNaive =>
+    (RRaise TypeError)
+  | Slice.BOther =>
+    (RRaise TypeError)
+  end.
+
+(* calgebra/core.py: Timeline.__getitem__ *)
+Definition g_getitem (self_fetch : option Z -> option Z -> bool -> list ivl) (clipped_fetch : option Z -> option Z -> bool -> list ivl) (item_start : Slice.bound) (item_stop : Slice.bound) (item_step : Slice.stepv) : res (list ivl) :=
+  res_bind (g_coerce_bound item_start) (fun r1_ =>
+  let start := r1_ in
+  res_bind (g_coerce_bound item_stop) (fun r2_ =>
+  let end_bound := r2_ in
+  let step_ := item_step in
+  match step_ with
+  | Slice.SNone =>
+    let reverse := false in
+    let end_ := end_bound in
+    let '(start, end_) :=
+      if ((negb (is_none start)) && (negb (is_none end_)) && ((ozd start) >? (ozd end_))) then
+        let '(start, end_) := (end_, start) in
+        (start, end_)
+      else
+        (start, end_) in
+    if ((is_none start) && (is_none end_)) then
+      (RDone (self_fetch start end_ reverse))
+    else
+      (RDone (clipped_fetch start end_ reverse))
+  | Slice.SInt step__z =>
+    if (negb (zmem step__z [1; (-1)])) then
+      (RRaise ValueError)
+    else
+      let reverse := (step__z =? (-1)) in
+      let end_ := end_bound in
+      let '(start, end_) :=
+        if ((negb (is_none start)) && (negb (is_none end_)) && ((ozd start) >? (ozd end_))) then
+          let '(start, end_) := (end_, start) in
+          (start, end_)
+        else
+          (start, end_) in
+      if ((is_none start) && (is_none end_)) then
+        (RDone (self_fetch start end_ reverse))
+      else
+        (RDone (clipped_fetch start end_ reverse))
+  | Slice.SOther =>
+    (RRaise ValueError)
+  end)).
+
+(* calgebra/cache.py: CachedTimeline._stitch_at *)
+Definition g_cache_stitch_at {KEYS : Type} {KEY : Type} (self_key_fields : option KEYS) (get_key : ivl -> option KEY) (key_eqb : KEY -> KEY -> bool) (fresh_left : bool) (self_sink : list ivl) (point : Z) : (list ivl) :=
+  if (is_none self_key_fields) then
+    self_sink
+  else
+    let left_ := (filter (fun ivl_ => (oZ_eqb (en ivl_) (Some point))) (sink_overlapping self_sink (point - 1))) in
+    let right_ := (filter (fun ivl_ => (oZ_eqb (st ivl_) (Some point))) (sink_overlapping self_sink point)) in
+    if ((negb (nonempty left_)) || (negb (nonempty right_))) then
+      self_sink
+    else
+      let left_by_key := (dict_of (opt_eqb key_eqb) (fun ivl_ => (get_key ivl_)) (fun ivl_ => ivl_) left_) in
+      let right_by_key := (dict_of (opt_eqb key_eqb) (fun ivl_ => (get_key ivl_)) (fun ivl_ => ivl_) right_) in
+      iter_for
+        (fun self_sink key_ =>
+          if (is_none key_) then
+            (SCont self_sink)
+          else
+            let '(l_ivl, r_ivl) := ((dict_get (opt_eqb key_eqb) (mkI None None Plain) key_ left_by_key), (dict_get (opt_eqb key_eqb) (mkI None None Plain) key_ right_by_key)) in
+            let fresh := (if fresh_left then l_ivl else r_ivl) in
+            let merged := (set_span fresh (st l_ivl) (en r_ivl)) in
+            let self_sink := (sl_remove l_ivl self_sink) in
+            let self_sink := (sl_remove r_ivl self_sink) in
+            let self_sink := (sl_add merged self_sink) in
+            (SCont self_sink))
+        (fun self_sink =>
+          self_sink)
+        self_sink (keys_inter (opt_eqb key_eqb) left_by_key right_by_key).
+
+(* calgebra/cache.py: CachedTimeline._fill_gap *)
+Definition g_cache_fill_gap {KEYS : Type} {KEY : Type} (self_key_fields : option KEYS) (get_key : ivl -> option KEY) (key_eqb : KEY -> KEY -> bool) (source_fetch : option Z -> option Z -> bool -> list ivl) (self_ttl : Z) (clock_now : Z) (self_sink : list ivl) (self_key_validated : bool) (self_cover : list cov) (self_expiry_seq : N) (self_expiry_heap : list hent) (gap_start : Z) (gap_end : Z) : (list ivl * bool * list cov * N * list hent) :=
+  let fetched := (source_fetch (Some gap_start) (Some gap_end) false) in
+  iter_for
+    (fun '(self_sink, self_key_validated) ivl_ =>
+      let self_key_validated :=
+        if ((negb self_key_validated) && (negb (is_none self_key_fields))) then
+          let self_key_validated := true in
+          self_key_validated
+        else
+          self_key_validated in
+      let clipped_start := (st ivl_) in
+      let clipped_end := (en ivl_) in
+      let clipped_start :=
+        if ((is_none (st ivl_)) || ((ozd (st ivl_)) <? gap_start)) then
+          let clipped_start := gap_start in
+          (Some clipped_start)
+        else
+          clipped_start in
+      let clipped_end :=
+        if ((is_none (en ivl_)) || ((ozd (en ivl_)) >? gap_end)) then
+          let clipped_end := gap_end in
+          (Some clipped_end)
+        else
+          clipped_end in
+      if ((negb (is_none clipped_start)) && (negb (is_none clipped_end))) then
+        if ((ozd clipped_start) >=? (ozd clipped_end)) then
+          (SCont (self_sink, self_key_validated))
+        else
+          let ivl_ :=
+            if ((negb (oZ_eqb clipped_start (st ivl_))) || (negb (oZ_eqb clipped_end (en ivl_)))) then
+              let ivl_ := (set_span ivl_ clipped_start clipped_end) in
+              ivl_
+            else
+              ivl_ in
+          let self_sink := (sl_add ivl_ self_sink) in
+          (SCont (self_sink, self_key_validated))
+      else
+        let ivl_ :=
+          if ((negb (oZ_eqb clipped_start (st ivl_))) || (negb (oZ_eqb clipped_end (en ivl_)))) then
+            let ivl_ := (set_span ivl_ clipped_start clipped_end) in
+            ivl_
+          else
+            ivl_ in
+        let self_sink := (sl_add ivl_ self_sink) in
+        (SCont (self_sink, self_key_validated)))
+    (fun '(self_sink, self_key_validated) =>
+      let cover_ := (mkCov gap_start gap_end (clock_now)) in
+      let self_cover := (cov_add cover_ self_cover) in
+      let self_expiry_seq := (N_plus_Z self_expiry_seq 1) in
+      let self_expiry_heap := (heap_push (((cv_t cover_) + self_ttl), self_expiry_seq, cover_) self_expiry_heap) in
+      let self_sink := (g_cache_stitch_at self_key_fields get_key key_eqb false self_sink gap_start) in
+      let self_sink := (g_cache_stitch_at self_key_fields get_key key_eqb true self_sink gap_end) in
+      (self_sink, self_key_validated, self_cover, self_expiry_seq, self_expiry_heap))
+    (self_sink, self_key_validated) fetched.
+
+(* calgebra/cache.py: CachedTimeline._fetch_sink *)
+Definition g_cache_fetch_sink (self_sink : list ivl) (start : Z) (end_ : Z) (reverse : bool) : list ivl :=
+  let out := @nil ivl in
+  let out := out ++ (fetch_static self_sink (Some start) (Some end_) reverse) in
+  out.
+
+(* calgebra/cache.py: CachedTimeline.fetch *)
+Definition g_cache_fetch {KEYS : Type} {KEY : Type} (fuel : nat) (self_key_fields : option KEYS) (get_key : ivl -> option KEY) (key_eqb : KEY -> KEY -> bool) (source_fetch : option Z -> option Z -> bool -> list ivl) (self_ttl : Z) (tick : Z) (clock : Z) (self_sink : list ivl) (self_key_validated : bool) (self_cover : list cov) (self_expiry_seq : N) (self_expiry_heap : list hent) (start : option Z) (end_ : option Z) (reverse : bool) : res (Z * list ivl * bool * list cov * N * list hent * list ivl) :=
+  let out := @nil ivl in
+  if ((is_none start) || (is_none end_)) then
+    (RRaise ValueError)
+  else
+    res_bind (res_bind (g_cache_evict_expired fuel clock self_expiry_heap self_cover self_sink) (fun x_ => RDone (x_, clock + tick))) (fun '(self_expiry_heap, self_cover, self_sink, clock) =>
+    let query := tt in
+    iter_for
+      (fun '(self_sink, self_key_validated, self_cover, self_expiry_seq, self_expiry_heap, clock) gap_ =>
+        let '(self_sink, self_key_validated, self_cover, self_expiry_seq, self_expiry_heap, clock) := (g_cache_fill_gap self_key_fields get_key key_eqb source_fetch self_ttl clock self_sink self_key_validated self_cover self_expiry_seq self_expiry_heap (ozd (st gap_)) (ozd (en gap_)), clock + tick) in
+        (SCont (self_sink, self_key_validated, self_cover, self_expiry_seq, self_expiry_heap, clock)))
+      (fun '(self_sink, self_key_validated, self_cover, self_expiry_seq, self_expiry_heap, clock) =>
+        let result := (g_cache_fetch_sink self_sink (ozd start) (ozd end_) reverse) in
+        let out := out ++ result in
+        (RDone (clock, self_sink, self_key_validated, self_cover, self_expiry_seq, self_expiry_heap, out)))
+      (self_sink, self_key_validated, self_cover, self_expiry_seq, self_expiry_heap, clock) (gaps_of self_cover (ozd start) (ozd end_))).
+
+(* calgebra/core.py: Union.fetch *)
+Definition g_union_fetch {TL : Type} (self_sources : list TL) (tl_fetch : TL -> option Z -> option Z -> bool -> list ivl) (start : option Z) (end_ : option Z) (reverse : bool) : list ivl :=
+  let streams := (map (fun source => (tl_fetch source start end_ reverse)) self_sources) in
+  let merged :=
+    if reverse then
+      let merged := (merge_by lt_rev streams) in
+      merged
+    else
+      let merged := (merge_by lt_fwd streams) in
+      merged in
+  merged.
+
+(* calgebra/core.py: Difference.fetch *)
+Definition g_diff_fetch {TL : Type} (fuel : nat) (source_fetch : option Z -> option Z -> bool -> list ivl) (self_subtractors : list TL) (tl_fetch : TL -> option Z -> option Z -> bool -> list ivl) (start : option Z) (end_ : option Z) (reverse : bool) : res (list ivl) :=
+  if (negb (nonempty self_subtractors)) then
+    (RDone (source_fetch start end_ reverse))
+  else
+    if reverse then
+      let source_stream := (g_negate_stream (source_fetch start end_ true)) in
+      let sub_streams := (map (fun sub => (g_negate_stream (tl_fetch sub start end_ true))) self_subtractors) in
+      res_bind (g_diff_sweep fuel source_stream sub_streams) (fun r1_ =>
+      (RDone (g_negate_stream r1_)))
+    else
+      let source_stream := (source_fetch start end_ false) in
+      let sub_streams := (map (fun sub => (tl_fetch sub start end_ false)) self_subtractors) in
+      res_bind (g_diff_sweep fuel source_stream sub_streams) (fun r2_ =>
+      (RDone r2_)).
+
+(* calgebra/core.py: Difference.overlapping *)
+Definition g_diff_overlapping {TL : Type} (fuel : nat) (source_overlapping : Z -> list ivl) (self_subtractors : list TL) (tl_fetch : TL -> option Z -> option Z -> bool -> list ivl) (point : Z) : res (list ivl) :=
+  let out := @nil ivl in
+  if (negb (nonempty self_subtractors)) then
+    let out := out ++ (source_overlapping point) in
+    (RDone out)
+  else
+    run_for_r
+      (fun _ src_ivl =>
+        let out := @nil ivl in
+        let sub_streams := (map (fun sub => (tl_fetch sub (st src_ivl) (en src_ivl) false)) self_subtractors) in
+        res_bind (g_diff_sweep fuel [src_ivl] sub_streams) (fun r1_ =>
+        let '(out1_, _) :=
+          sub_for
+            (fun _ fragment =>
+              let out := @nil ivl in
+              if (((fstart fragment) <=? point) && (point <? (fend fragment))) then
+                let out := out ++ [fragment] in
+                (out, tt, true)
+              else
+                (out, tt, true))
+            tt r1_ in
+        let out := out ++ out1_ in
+        RDone (out, tt, Cont)))
+      (fun _ =>
+        let out := @nil ivl in
+        out)
+      tt (source_overlapping point).
+
+(* calgebra/core.py: Complement.overlapping *)
+Definition g_compl_overlapping (source_fetch : option Z -> option Z -> bool -> list ivl) (self_fetch : option Z -> option Z -> bool -> list ivl) (point : Z) : list ivl :=
+  if (existsb (fun ivl_ => (((fstart ivl_) <=? point) && (point <? (fend ivl_)))) (source_fetch (Some point) (Some (point + 1)) false)) then
+    (@nil ivl)
+  else
+    let right_ := None in
+    iter_for
+      (fun right_ ivl_ =>
+        if ((fstart ivl_) >? point) then
+          let right_ := (st ivl_) in
+          (SBrk right_)
+        else
+          (SCont right_))
+      (fun right_ =>
+        let left_ := None in
+        iter_for
+          (fun left_ gap_ =>
+            if (((fstart gap_) <=? point) && ((fend gap_) >? point)) then
+              let left_ := (st gap_) in
+              (SBrk left_)
+            else
+              (SCont left_))
+          (fun left_ =>
+            [(mkI left_ right_ Plain)])
+          left_ (self_fetch None (Some (point + 1)) true))
+      right_ (source_fetch (Some point) None false).
+
+(* calgebra/core.py: Timeline.overlapping *)
+Definition g_base_overlapping (self_fetch : option Z -> option Z -> bool -> list ivl) (point : Z) : list ivl :=
+  (filter (fun ivl_ => (((fstart ivl_) <=? point) && (point <? (fend ivl_)))) (self_fetch (Some point) (Some (point + 1)) false)).
+
+(* calgebra/recurrence.py: RecurringPattern._occurrence_to_interval *)
+Definition g_recur_occurrence_to_interval {DT : Type} {TD : Type} (self_start_seconds : Z) (self_duration_seconds : Z) (dt_replace_hms : DT -> Z -> Z -> Z -> DT) (dt_timestamp : DT -> Z) (dt_fromtimestamp : Z -> DT) (td_of_seconds : Z -> TD) (dt_add : DT -> TD -> DT) (interval_class : Z -> Z -> ivl) (occurrence : DT) : ivl :=
+  let start_hour_int := (self_start_seconds / 3600) in
+  let remaining := (self_start_seconds mod 3600) in
+  let start_minute := (remaining / 60) in
+  let start_second := (remaining mod 60) in
+  let window_start := (dt_replace_hms occurrence start_hour_int start_minute start_second) in
+  let window_start := (dt_fromtimestamp (dt_timestamp window_start)) in
+  let window_end := (dt_add window_start (td_of_seconds self_duration_seconds)) in
+  let base_interval := (interval_class (dt_timestamp window_start) (dt_timestamp window_end)) in
+  base_interval.
+
+(* calgebra/metrics.py: _period_windows_with_dt *)
+Definition g_period_windows_dt {DT : Type} {TD : Type} (fuel : nat) (p_fromtimestamp : Z -> DT) (p_ymd : Z -> Z -> Z -> DT) (p_ymdh : Z -> Z -> Z -> Z -> DT) (p_hours : Z -> TD) (p_days : Z -> TD) (p_weeks : Z -> TD) (p_add : DT -> TD -> DT) (p_sub : DT -> TD -> DT) (p_lt : DT -> DT -> bool) (p_timestamp : DT -> Z) (p_weekday : DT -> Z) (p_year : DT -> Z) (p_month : DT -> Z) (p_day : DT -> Z) (p_hour : DT -> Z) (start_ts : Z) (end_ts : Z) (period : Metrics.period) : res (list ((DT * Z * Z))) :=
+  if (start_ts >=? end_ts) then
+    (RDone (@nil (DT * Z * Z)))
+  else
+    let zone := tt in
+    let start_dt := (p_fromtimestamp start_ts) in
+    let end_dt := (p_fromtimestamp end_ts) in
+    match period with
+    | Metrics.PHour =>
+      let windows := (@nil (DT * Z * Z)) in
+      let current := (p_ymdh (p_year start_dt) (p_month start_dt) (p_day start_dt) (p_hour start_dt)) in
+      iter_while fuel
+        (fun '(windows, current) => (p_lt current end_dt))
+        (fun '(windows, current) =>
+          let next_hour := (p_add current (p_hours 1)) in
+          let win_start := (p_timestamp current) in
+          let win_end := (p_timestamp next_hour) in
+          let windows := (windows ++ [(current, win_start, win_end)]) in
+          let current := next_hour in
+          (SCont (windows, current)))
+        (fun '(windows, current) =>
+          (RDone windows))
+        (windows, current)
+    | Metrics.PDay =>
+      let windows := (@nil (DT * Z * Z)) in
+      let current := (p_ymd (p_year start_dt) (p_month start_dt) (p_day start_dt)) in
+      iter_while fuel
+        (fun '(windows, current) => (p_lt current end_dt))
+        (fun '(windows, current) =>
+          let next_day := (p_add current (p_days 1)) in
+          let win_start := (p_timestamp current) in
+          let win_end := (p_timestamp next_day) in
+          let windows := (windows ++ [(current, win_start, win_end)]) in
+          let current := next_day in
+          (SCont (windows, current)))
+        (fun '(windows, current) =>
+          (RDone windows))
+        (windows, current)
+    | Metrics.PWeek =>
+      let windows := (@nil (DT * Z * Z)) in
+      let days_since_monday := (p_weekday start_dt) in
+      let week_start := (p_sub (p_ymd (p_year start_dt) (p_month start_dt) (p_day start_dt)) (p_days days_since_monday)) in
+      let current := week_start in
+      iter_while fuel
+        (fun '(windows, current) => (p_lt current end_dt))
+        (fun '(windows, current) =>
+          let next_week := (p_add current (p_weeks 1)) in
+          let win_start := (p_timestamp current) in
+          let win_end := (p_timestamp next_week) in
+          let windows := (windows ++ [(current, win_start, win_end)]) in
+          let current := next_week in
+          (SCont (windows, current)))
+        (fun '(windows, current) =>
+          (RDone windows))
+        (windows, current)
+    | Metrics.PMonth =>
+      let windows := (@nil (DT * Z * Z)) in
+      let current := (p_ymd (p_year start_dt) (p_month start_dt) 1) in
+      iter_while fuel
+        (fun '(windows, current) => (p_lt current end_dt))
+        (fun '(windows, current) =>
+          let next_month :=
+            if ((p_month current) =? 12) then
+              let next_month := (p_ymd ((p_year current) + 1) 1 1) in
+              next_month
+            else
+              let next_month := (p_ymd (p_year current) ((p_month current) + 1) 1) in
+              next_month in
+          let win_start := (p_timestamp current) in
+          let win_end := (p_timestamp next_month) in
+          let windows := (windows ++ [(current, win_start, win_end)]) in
+          let current := next_month in
+          (SCont (windows, current)))
+        (fun '(windows, current) =>
+          (RDone windows))
+        (windows, current)
+    | Metrics.PYear =>
+      let windows := (@nil (DT * Z * Z)) in
+      let current := (p_ymd (p_year start_dt) 1 1) in
+      iter_while fuel
+        (fun '(windows, current) => (p_lt current end_dt))
+        (fun '(windows, current) =>
+          let next_year := (p_ymd ((p_year current) + 1) 1 1) in
+          let win_start := (p_timestamp current) in
+          let win_end := (p_timestamp next_year) in
+          let windows := (windows ++ [(current, win_start, win_end)]) in
+          let current := next_year in
+          (SCont (windows, current)))
+        (fun '(windows, current) =>
+          (RDone windows))
+        (windows, current)
+    | Metrics.PFull =>
+      (RDone [(start_dt, start_ts, end_ts)])
+    end.
